@@ -31,7 +31,9 @@ use std::collections::VecDeque;
 use std::panic::{catch_unwind, AssertUnwindSafe};
 use std::pin::Pin;
 use std::sync::atomic::{AtomicUsize, Ordering};
-use std::sync::{Arc, Mutex};
+use std::cell::RefCell;
+use std::rc::Rc;
+use std::sync::Arc;
 use std::task::{Context, Poll, Wake, Waker};
 use std::time::Instant;
 use swimos_multi_reader::MultiReader;
@@ -97,7 +99,25 @@ pub fn configs() -> Vec<Config> {
         Config { name: "boundary_0_1_63_add_64_65", prelude: 64, scripted: vec![0, 1, 63], max_adds: 2, script_len: 3 },
         Config { name: "two_buckets_0_63_64_65", prelude: 66, scripted: vec![0, 63, 64, 65], max_adds: 1, script_len: 3 },
         Config { name: "three_buckets_1_128_add_129", prelude: 129, scripted: vec![1, 128], max_adds: 2, script_len: 3 },
+        // small configurations whose whole reachable space is searched (true fixpoint)
+        Config { name: "pair_63_add_64", prelude: 64, scripted: vec![63], max_adds: 1, script_len: 3 },
+        Config { name: "pair_0_add_64", prelude: 64, scripted: vec![0], max_adds: 1, script_len: 3 },
+        Config { name: "triple_63_64_add_65", prelude: 65, scripted: vec![63, 64], max_adds: 1, script_len: 2 },
+        Config { name: "second_bucket_64_65_reuse", prelude: 66, scripted: vec![64, 65], max_adds: 1, script_len: 2 },
     ]
+}
+
+/// (config index, depth bound) per tier.
+fn plan(quick: bool) -> Vec<(usize, usize)> {
+    let p = std::env::var("C11_PLAN").ok();
+    if let Some(p) = p {
+        return p.split(',').map(|x| { let mut it = x.split(':'); (it.next().unwrap().parse().unwrap(), it.next().unwrap().parse().unwrap()) }).collect();
+    }
+    if quick {
+        vec![(0, 64), (5, 64), (6, 64), (7, 64), (8, 64), (1, 11), (2, 9), (3, 8), (4, 9)]
+    } else {
+        vec![(0, 64), (5, 64), (6, 64), (7, 64), (8, 64), (1, 14), (2, 11), (3, 10), (4, 12)]
+    }
 }
 
 // ------------------------------------------------------------------------------------------
@@ -142,7 +162,7 @@ struct World {
 
 struct Scripted {
     uid: usize,
-    w: Arc<Mutex<World>>,
+    w: Rc<RefCell<World>>,
 }
 
 const RUNAWAY: &str = "c11-runaway-poll-loop";
@@ -150,14 +170,15 @@ const RUNAWAY: &str = "c11-runaway-poll-loop";
 impl Stream for Scripted {
     type Item = (u16, u8);
     fn poll_next(self: Pin<&mut Self>, cx: &mut Context<'_>) -> Poll<Option<Self::Item>> {
-        let mut w = self.w.lock().unwrap();
+        let mut w = self.w.borrow_mut();
         w.poll_log.push(self.uid as u16);
         w.inner_polls += 1;
         if w.inner_polls > 8 * (w.cells.len() + 8) {
             drop(w);
             panic!("{}", RUNAWAY);
         }
-        let c = &mut w.cells[self.uid];
+        let uid = self.uid;
+        let c = &mut w.cells[uid];
         if c.ended {
             c.polled_after_end = true;
             return Poll::Ready(None);
@@ -179,7 +200,7 @@ impl Stream for Scripted {
 
 impl Drop for Scripted {
     fn drop(&mut self) {
-        if let Ok(mut w) = self.w.lock() {
+        if let Ok(mut w) = self.w.try_borrow_mut() {
             w.cells[self.uid].dropped = true;
         }
     }
@@ -333,8 +354,9 @@ pub struct State {
 }
 
 struct Run<'a> {
+    #[allow(dead_code)]
     cfg: &'a Config,
-    world: Arc<Mutex<World>>,
+    world: Rc<RefCell<World>>,
     reader: MultiReader<Scripted>,
     counter: Arc<Counter>,
     waker: Waker,
@@ -352,7 +374,7 @@ struct Run<'a> {
 fn viol(law: &str, cause: Option<(&Run, usize)>, text: String) -> Violation {
     let mut signature = format!("leg=multireader law={}", law);
     if let Some((run, uid)) = cause {
-        let w = run.world.lock().unwrap();
+        let w = run.world.borrow();
         signature.push_str(&format!(" stream_state={}", w.cells[uid].last.cause()));
         drop(w);
         let bucket = match run.shadow.key_of(uid as u16) {
@@ -370,7 +392,7 @@ impl<'a> Run<'a> {
         let counter = Arc::new(Counter(AtomicUsize::new(0)));
         let mut run = Run {
             cfg,
-            world: Arc::new(Mutex::new(World { cells: vec![], poll_log: vec![], inner_polls: 0 })),
+            world: Rc::new(RefCell::new(World { cells: vec![], poll_log: vec![], inner_polls: 0 })),
             reader: MultiReader::new(),
             waker: Waker::from(counter.clone()),
             counter,
@@ -392,7 +414,7 @@ impl<'a> Run<'a> {
 
     fn add_stream(&mut self, scripted: bool) -> Result<(), Violation> {
         let uid = {
-            let mut w = self.world.lock().unwrap();
+            let mut w = self.world.borrow_mut();
             w.cells.push(Cell {
                 scripted,
                 avail: VecDeque::new(),
@@ -447,7 +469,7 @@ impl<'a> Run<'a> {
             Op::Ready(i) => {
                 let uid = self.logical[i as usize];
                 let wk = {
-                    let mut w = self.world.lock().unwrap();
+                    let mut w = self.world.borrow_mut();
                     let c = &mut w.cells[uid];
                     c.avail.push_back(self.produced[uid]);
                     let wk = c.waker.take();
@@ -462,7 +484,7 @@ impl<'a> Run<'a> {
             Op::Close(i) => {
                 let uid = self.logical[i as usize];
                 let wk = {
-                    let mut w = self.world.lock().unwrap();
+                    let mut w = self.world.borrow_mut();
                     let c = &mut w.cells[uid];
                     c.closed = true;
                     let wk = c.waker.take();
@@ -481,7 +503,7 @@ impl<'a> Run<'a> {
         }
         // state invariants
         let bad = {
-            let w = self.world.lock().unwrap();
+            let w = self.world.borrow();
             w.cells.iter().enumerate().find_map(|(uid, c)| {
                 if c.dropped && !c.ended {
                     Some(("no_live_stream_dropped", Some(uid), format!("stream uid {} was dropped by the reader although it had not ended ({} items still available)", uid, c.avail.len())))
@@ -501,7 +523,7 @@ impl<'a> Run<'a> {
     fn poll(&mut self) -> Result<(), Violation> {
         // what each stream will do when polled (before the poll)
         let behaviour: Vec<u8> = {
-            let mut w = self.world.lock().unwrap();
+            let mut w = self.world.borrow_mut();
             w.poll_log.clear();
             w.inner_polls = 0;
             w.cells.iter().map(|c| if !c.avail.is_empty() { 0 } else if c.closed { 1 } else { 2 }).collect()
@@ -525,7 +547,7 @@ impl<'a> Run<'a> {
             }
         };
         let log = {
-            let w = self.world.lock().unwrap();
+            let w = self.world.borrow();
             self.total_inner += w.poll_log.len() as u64;
             w.poll_log.clone()
         };
@@ -550,7 +572,7 @@ impl<'a> Run<'a> {
                 let me = self.logical.iter().position(|u| *u == uid);
                 if let Some(me) = me {
                     let waiting: Vec<(usize, usize)> = {
-                        let w = self.world.lock().unwrap();
+                        let w = self.world.borrow();
                         self.logical.iter().enumerate().filter(|(t, u)| *t != me && !w.cells[**u].ended && !w.cells[**u].avail.is_empty()).map(|(t, u)| (t, *u)).collect()
                     };
                     for (t, tuid) in waiting {
@@ -571,7 +593,7 @@ impl<'a> Run<'a> {
             Poll::Ready(None) => {
                 self.check_handed()?;
                 let bad = {
-                    let w = self.world.lock().unwrap();
+                    let w = self.world.borrow();
                     w.cells.iter().enumerate().find(|(_, c)| !c.ended).map(|(uid, c)| {
                         (uid, format!("poll_next returned Ready(None) although stream uid {} has not ended (available {}, closed {})", uid, c.avail.len(), c.closed))
                     })
@@ -583,7 +605,7 @@ impl<'a> Run<'a> {
             Poll::Pending => {
                 self.check_handed()?;
                 let bad = {
-                    let w = self.world.lock().unwrap();
+                    let w = self.world.borrow();
                     if let Some((uid, _)) = w.cells.iter().enumerate().find(|(_, c)| !c.ended && !c.avail.is_empty()) {
                         Some(("pending_only_if_none_ready", Some(uid), format!("poll_next returned Pending although stream uid {} has an item available", uid)))
                     } else if let Some((uid, c)) = w.cells.iter().enumerate().find(|(_, c)| !c.ended && c.waker.is_none()) {
@@ -603,7 +625,7 @@ impl<'a> Run<'a> {
     }
 
     fn check_handed(&self) -> Result<(), Violation> {
-        let w = self.world.lock().unwrap();
+        let w = self.world.borrow();
         for (uid, c) in w.cells.iter().enumerate() {
             if c.handed != self.delivered[uid] {
                 return Err(viol(
@@ -617,7 +639,7 @@ impl<'a> Run<'a> {
     }
 
     fn state(&self, ops: Vec<Op>) -> State {
-        let w = self.world.lock().unwrap();
+        let w = self.world.borrow();
         let mut key = vec![];
         if self.diverged {
             key.push(0xff);
@@ -699,13 +721,10 @@ fn ops_json(ops: &[Op]) -> Vec<String> {
 
 pub fn run(ctx: &Ctx) {
     let all = configs();
-    let plan: Vec<(usize, usize)> = if ctx.quick() {
-        // (config index, depth)
-        vec![(0, 9), (1, 9), (2, 7), (3, 6)]
-    } else {
-        vec![(0, 60), (1, 60), (2, 60), (3, 60), (4, 60)]
-    };
-    let budget_s = ctx.tier.pick(25.0, 240.0);
+    let plan = plan(ctx.quick());
+    // wall-clock caps inside the engine: per configuration and for the whole leg
+    let per_config_s = ctx.tier.pick(15.0, 200.0);
+    let leg_deadline = Instant::now() + std::time::Duration::from_secs_f64(ctx.tier.pick(40.0, 780.0));
     for (ci, depth) in plan {
         let cfg = &all[ci];
         let t0 = Instant::now();
@@ -716,12 +735,11 @@ pub fn run(ctx: &Ctx) {
                 continue;
             }
         };
-        // wall-clock cap inside the engine: the search is cut between levels by max_states, which
-        // is derived from a measured rate; a cut is reported as non-exhaustive.
-        let max_states: u64 = ctx.tier.pick(1_500_000, 12_000_000);
+        // a cut (state cap or deadline) is reported as non-exhaustive
+        let max_states: u64 = ctx.tier.pick(2_000_000, 8_000_000);
         let inner = AtomicUsize::new(0);
         let diverged = AtomicUsize::new(0);
-        let deadline = Instant::now() + std::time::Duration::from_secs_f64(budget_s);
+        let deadline = std::cmp::min(Instant::now() + std::time::Duration::from_secs_f64(per_config_s), leg_deadline);
         let timed_out = std::sync::atomic::AtomicBool::new(false);
         let stats = vcommon::space::bfs(
             init,
@@ -778,7 +796,7 @@ pub fn run(ctx: &Ctx) {
             samples,
             exhaustive: !cut,
             bounds: json!({"config": cfg.name, "prelude_streams": cfg.prelude, "scripted_slab_indices": cfg.scripted, "max_adds": cfg.max_adds,
-                "items_per_stream": cfg.script_len, "depth": depth, "depth_reached": stats.depth_reached, "fixpoint": stats.fixpoint,
+                "items_per_stream": cfg.script_len, "depth": depth, "depth_reached": stats.depth_reached, "fixpoint": stats.fixpoint && !cut,
                 "cut_by_cap": cut, "fair_bound": FAIR_BOUND,
                 "transitions_where_reader_deviated_from_rotation_shadow": diverged.load(Ordering::Relaxed),
                 "inner_stream_polls_replayed": inner.load(Ordering::Relaxed)}),
